@@ -13,8 +13,8 @@ ROUTING_ASSUMPTIONS = ["TemporalSourceWF (EnvOK): per source stream task ids str
 PROPS = {
     "C05": dict(
         engine="TestC05",
-        lean_modules=["S2S.Props.C05"],
-        required_theorems=["C05_wf", "C05_aggregate_exact", "C05_aggregate_nodup", "C05_aggregate_count", "C05_contents_exact"],
+        lean_modules=["S2S.Props.C05", "S2S.Props.C05R"],
+        required_theorems=["C05_wf", "C05_aggregate_exact", "C05_aggregate_nodup", "C05_aggregate_count", "C05_contents_exact", "C05R_ops_are_good", "C05R_ring_is_log", "C05R_aggregate_is_expected", "C05R_physical_ring_agrees", "C05R_physical_ring_agrees_int64"],
         rule="histories of ring ops (new/app/agg/dis): bounded-exhaustive over capacities 1..3 with contiguous and gapped ids, then random "
              "histories (capacities 1..1024, wrap-around, several doublings, watermarks below/inside/above the range, extreme watermarks, "
              "a hypothesis-violating stream with non-increasing ids and (0,0) shards). A history is non-trivial when it has a gapped append or an "
@@ -172,8 +172,8 @@ PROPS = {
     "C16": dict(
         engine="TestC16",
         extract="typegraph",
-        lean_modules=["S2S.Props.C16"],
-        required_theorems=["C16_forbidden_namespace_denied", "C16_allowed_namespaces_pass", "C16_list_namespaces_filtered", "C16_every_namespace_field_is_seen", "C16_unreadable_request_denied"],
+        lean_modules=["S2S.Props.C16", "S2S.Props.C16V"],
+        required_theorems=["C16_forbidden_namespace_denied", "C16_allowed_namespaces_pass", "C16_list_namespaces_filtered", "C16_every_namespace_field_is_seen", "C16_unreadable_request_denied", "C16V_forbidden_name_refused", "C16V_names_checked_are_translated_names", "C16V_all_allowed_forwarded", "C16V_unreadable_refused", "C16V_decision_on_original_request"],
         rule="for every root type of both services and every kind of structural path to a namespace field (incl. inside history blobs), real messages with an "
              "allowed / forbidden / empty name at that path, and combinations (allowed on one path + forbidden on another), through the real "
              "AccessControlInterceptor.Intercept with a recording handler: decision compared with the model given every namespace value of the message "
